@@ -327,6 +327,7 @@ func (p *PIDZero) Shutdown() {
 		signal.Stop(p.signalChan) // stop listening for new signals
 
 		// Stop each runnable in reverse order
+		finalStates := make(map[Runnable]string, len(p.runnables))
 		for i := len(p.runnables) - 1; i >= 0; i-- {
 			r := p.runnables[i]
 
@@ -345,6 +346,7 @@ func (p *PIDZero) Shutdown() {
 			if stateable, ok := r.(Stateable); ok {
 				finalState := stateable.GetState()
 				p.stateMap.Store(r, finalState)
+				finalStates[r] = finalState
 				p.logger.Debug("Post-shutdown state", "runnable", r, "state", finalState)
 			}
 
@@ -375,6 +377,13 @@ func (p *PIDZero) Shutdown() {
 		} else {
 			// No timeout configured, wait indefinitely
 			p.wg.Wait()
+		}
+
+		// The state monitors have exited with the context. One of them may have replaced
+		// the post-Stop state recorded above with an older state it still had queued, so
+		// record those states once more now that nothing else writes them.
+		for r, finalState := range finalStates {
+			p.stateMap.Store(r, finalState)
 		}
 
 		// errorChan is deliberately left open: after a shutdown timeout a runnable may
